@@ -107,10 +107,19 @@ def features(case, sql):
 
 
 def classify(case, status):
-    from vf.checks import c01
-
+    """attribute a refusal to the recorded finding by its mechanism, observed on THIS dialect's generator: some
+    *_to_near_sql of the PostgreSQL model was asked for zero columns of a source (the SQLite dialect can take another
+    path through the same pipeline, e.g. its join emulations, so C01's attribution is not asked)"""
     if status == "sql-raised":
-        return c01.classify_case(case, status)
+        monitors.OBS.triggers.discard("sql_zero_using")
+        try:
+            import data_algebra.PostgreSQL
+
+            data_algebra.PostgreSQL.PostgreSQLModel().to_sql(B.build(case["recipe"]))
+        except Exception:
+            pass
+        if "sql_zero_using" in monitors.OBS.triggers:
+            return "sql-source-needs-no-columns"
     return None
 
 
